@@ -736,6 +736,11 @@ pub fn serialize_ops(mut ops: &[Op]) -> Result<Vec<u8>> {
                 writeln!(f, " Do")?;
             },
         }
+        // `v` is only written against a current point this loop knows: after `h` it is the start of the
+        // subpath, after `re` the rectangle's corner, after a path-painting operator there is none
+        if matches!(ops[0], Op::Close | Op::Rect { .. } | Op::EndPath | Op::Stroke | Op::Fill { .. } | Op::FillAndStroke { .. }) {
+            current_point = None;
+        }
         ops = &ops[advance..];
     }
     Ok(data)
